@@ -758,7 +758,11 @@ class InterpBase:
                 from .linear import linearize
                 p = buffer_pos(base, linearize(i))
                 if p is not None and p[1].is_const() and p[1].c >= 0 and p[0].k == "sym" and (p[0].a[0], p[1].c) in self.concrete_bytes:
+                    self.log_read("idx", base, i, None, env, node)
                     return C(self.concrete_bytes[(p[0].a[0], p[1].c)])
+            # an index into a byte string that was built from (a copy of) input octets is a read like any other: it fails
+            # when the copy is shorter
+            self.log_read("idx", base, i, None, env, node)
             return T("idx", base, i, ty="int")
         ety = base.ty[1] if isinstance(base.ty, tuple) and base.ty[0] == "list" else None
         if isinstance(base.ty, tuple) and base.ty[0] == "tuple" and base.ty[1] and i.k == "const" \
